@@ -405,3 +405,37 @@ def rule_config_reaches_component(ctx, p, cfg, rid, deser_suffix, ctor_suffix, s
             fd = {n: deep_strip(v) for n, v in e[3]} if e[0] == "agg" else {}
             for fld, prm in stored.items():
                 r.require(fd.get(fld) == ("param", prm), "constructor-stores:%s" % fld, fn=g, detail="%s keeps its argument in `%s`: %s" % (ctor_suffix, fld, show(fd.get(fld), 4) if fd.get(fld) else None))
+
+
+def rule_visitor_entry_points(ctx, p, cfg, rid, self_ty_part, documented, what):
+    """The forms a hand-written serde visitor accepts are the forms the documentation lists.  serde's provided methods turn
+    every other form into an "invalid type" error or hand it on to a documented method unchanged (visit_string and
+    visit_borrowed_str go to visit_str, the narrower integers to visit_u64/visit_i64).  An override of one of those is fine
+    when it does the same - passes its argument on as it is - and is a new accepted form (or a different reading of a
+    documented one) when it does anything else."""
+    from l4sa.core import deep_strip, TRANSPARENT_CALLS
+    with ctx.rule(rid, "the visitor accepts the documented forms only", cfg) as r:
+        impls = [i for i in p.impls if "de::Visitor" in (i.get("trait") or "") and self_ty_part in str(i.get("self_ty")) and "_::" not in str(i.get("self_ty"))]
+        if len(impls) != 1:
+            raise AnchorMissing("hand-written serde Visitor for %s: found %d" % (what, len(impls)))
+        meths = {m.rsplit("::", 1)[-1]: m for m in impls[0]["methods"]}
+        have = sorted(n for n in meths if n in documented)
+        r.require(bool(have), "documented-forms:%s" % what, detail="%s: documented entry points implemented: %s" % (what, have))
+        for name, path in sorted(meths.items()):
+            if name in documented or name == "expecting" or path not in p.fns:
+                continue
+            f = p.fn(path)
+            e = deep_strip(f.local_expr(0))
+            targets = {meths[d] for d in documented if d in meths}
+            ok = e[0] == "call" and e[1] in targets and len(e[2]) >= 2
+            if ok:
+                a = deep_strip(e[2][1])
+                while isinstance(a, tuple) and a and a[0] == "cast" and a[1] == "IntToInt":
+                    a = deep_strip(a[2])
+                ok = a == ("param", 2)
+            if ok:
+                other = [c.callee for c in f.calls() if c.callee not in targets and c.callee not in TRANSPARENT_CALLS and (c.callee or "").rsplit("::", 1)[-1] not in ("drop", "deref", "as_str", "as_ref", "borrow", "from", "into")]
+                ok = not other
+            r.require(ok, "extra-form:%s/%s" % (what, name), fn=f, detail="%s only hands its argument on to a documented entry point" % name,
+                      fail_detail="the %s visitor also implements %s, and not as a plain hand-over to %s: a form the documentation does not list is accepted, or a listed one is read differently (%s)" % (
+                          what, name, "/".join(sorted(documented)), show(e, 4)))
